@@ -68,22 +68,21 @@ Definition count_disconnected (evs : list event) : nat := length (filter is_disc
 
 (* ---------- hypotheses on the caller (what P2PSession / SpectatorSession do) ----------
    [disciplined dbg s must ops]:
-   (i)   send_input is never called with PENDING_OUTPUT_SIZE inputs already pending
-         (excludes the unguarded `Event::Disconnected` push of send_input);
    (ii)  when a poll has reported Disconnected, the next operation on the endpoint is disconnect()
          (handle_event calls disconnect_player_at_frame before anything else happens);
-   (iii) a Disconnected event waiting in the queue (it stems from a peer's disconnect request) is
-         polled no later than disconnect_notify_start after the latest accepted message
-         (poll_remote_clients polls right after handling the received messages). *)
+   (iii) while a Disconnected event waits in the queue of an endpoint that is still Running (it was
+         raised by a peer's disconnect request or by send_input, and the caller has not polled yet):
+         - if the endpoint is not interrupted, it is polled no later than disconnect_notify_start
+           after the latest accepted message (else the poll appends NetworkInterrupted),
+         - if the endpoint is interrupted, no message is accepted (else NetworkResumed is appended). *)
 Definition op_allowed (s : ep) (must_disconnect : bool) (o : op) : Prop :=
   (must_disconnect = true -> exists now, o = ODisconnect now) /\
-  match o with
-  | OSendInput _ _ _ =>
-    u_state s = PRunning -> (N.of_nat (length (u_pending_output s)) < PENDING_OUTPUT_SIZE)%N
-  | OPoll now _ _ =>
-    In EvDisconnected (u_event_queue s) -> now <= u_last_recv_time s + u_notify_start s
-  | _ => True
-  end.
+  (In EvDisconnected (u_event_queue s) -> u_state s = PRunning ->
+   match o with
+   | OPoll now _ _ => u_notify_sent s = false -> now <= u_last_recv_time s + u_notify_start s
+   | OMessage _ _ m => u_notify_sent s = true -> passes_filters s m = false
+   | _ => True
+   end).
 
 Fixpoint disciplined (dbg : bool) (s : ep) (must_disconnect : bool) (ops : list op) : Prop :=
   match ops with
